@@ -73,6 +73,20 @@ def special_models():
         out.append((f'shadowed-namespace-{tag}', shadow,
                     {'enc': ['A', 'B', 'Comp'], 'prov': {'sts': sem, 'mts': other}, 'req': {'sts': sem, 'mts': other},
                      'mc': nomc, 'origin': 'create', 'prefix': ['A'], 'suffix': 'Shell', 'base': 'Mod'}))
+    # a support-file prefix with an inner namespace called dzn (and std): names of the runtime must stay reachable
+    evs = [{'name': 'Claim', 'dir': 'in', 'reply': ['Res'], 'formals': [F('a', 'T')]},
+           {'name': 'Release', 'dir': 'in', 'reply': ['void'], 'formals': []},
+           {'name': 'Go', 'dir': 'in', 'reply': ['void'], 'formals': [F('a', 'T'), F('b', 'T', 'out')]},
+           {'name': 'Done', 'dir': 'out', 'reply': ['void'], 'formals': [F('a', 'T')]}]
+    decls = [model.new_decl('extern', ['T'], cpp=T1), model.new_decl('enum', ['A', 'Res'], fields=['Ok', 'No']),
+             model.new_decl('interface', ['A', 'I0'], events=evs),
+             model.new_decl('component', ['A', 'Comp'], ports=[{'name': 'api', 'type': ['I0'], 'dir': 'provides', 'inj': False},
+                                                               {'name': 'hal', 'type': ['I0'], 'dir': 'requires', 'inj': False}])]
+    for pre in (['Acme', 'dzn'],):       # (an inner namespace called std breaks every std:: of the support headers: not claimed)
+        out.append((f'prefix-{pre[-1]}', decls,
+                    {'enc': ['A', 'Comp'], 'prov': {'sts': shell.NONE, 'mts': shell.ALL}, 'req': {'sts': shell.NONE, 'mts': shell.ALL},
+                     'mc': {'on': True, 'port': 'api', 'claim': 'Claim', 'grant': ['Ok'], 'release': 'Release'},
+                     'origin': 'create', 'prefix': pre, 'suffix': 'Shell', 'base': 'Mod'}))
     # identifier shapes: a formal of the claim event named like something the generated claim lambda declares itself
     for nme in ('identifier', 'r'):
         evs = [{'name': 'Claim', 'dir': 'in', 'reply': ['Res'], 'formals': [F(nme, 'T')]},
@@ -265,7 +279,8 @@ def check_prefixes(chk):
     from dznpy.support_files import strict_port, ilog, misc_utils, meta_helpers, multi_client_selector, mutex_wrapped  # noqa
     from dznpy.scoping import ns_ids_t  # pylint: disable=import-outside-toplevel
     mods = (strict_port, ilog, misc_utils, meta_helpers, multi_client_selector, mutex_wrapped)
-    prefixes = [None, ['P'], ['P', 'Q'], ['Q'], ['P_Q']]
+    # (a prefix with an inner component called dzn: an unanchored dzn:: inside <prefix>::Dzn would find that one)
+    prefixes = [None, ['P'], ['P', 'Q'], ['Q'], ['P_Q'], ['Acme', 'dzn']]
     sets = {}
     for pre in prefixes:
         sets[json.dumps(pre)] = [m.create_header(ns_ids_t(list(pre)) if pre else None) for m in mods]
